@@ -315,6 +315,13 @@ def step (st : DSt) (line : String) : DSt × String :=
       let (h', resp) := st.hub.connect M (st.tok false) l { auth := a, topics := topics, leid := { header := lh, query := lq, legacy := ll } }
       ({ st with hub := h' }, s!"{resp.status} {hex resp.body} leid={match resp.respLEID with | some x => hex x | none => "~"}")
     | _, _, _, _, _, _ => (st, "bad-op")
+  | ["hub.subfail", label, isPost, hdrs, query, cookie, origin, referer, refOrigin, topics, lh, lq, ll] =>
+    -- a registration whose AddSubscriber fails half-way (the harness injected a fault into the history)
+    match label.toNat?, parseAuthReq isPost hdrs query cookie origin referer refOrigin, unhexList topics, unhex lh, unhex lq, optList ll with
+    | some l, some a, some topics, some lh, some lq, some ll =>
+      let (h', resp) := st.hub.connectFailing M (st.tok false) l { auth := a, topics := topics, leid := { header := lh, query := lq, legacy := ll } }
+      ({ st with hub := h' }, s!"{resp.status} {hex resp.body} leid={match resp.respLEID with | some x => hex x | none => "~"}")
+    | _, _, _, _, _, _ => (st, "bad-op")
   | ["hub.disc", label] =>
     match label.toNat? with
     | some l => ({ st with hub := st.hub.clientClose M l }, "ok")
